@@ -47,7 +47,7 @@ func tenantSpec(onlyA bool) world.Spec {
 		sp.ACS = []world.ACSSpec{acs(world.BindPost, "https://tenant-"+tag+".sp.example/acs", "0", A)}
 		sp.SLO = []world.SLOSpec{{Binding: world.BindPost, Location: "https://tenant-" + tag + ".sp.example/slo"}}
 		u := stdUser(0)
-		u.UserID, u.LoginName = "uid-tenant-"+tag, tenantLogin
+		u.UserID, u.LoginName = "uid-shared-by-tenants", tenantLogin
 		u.Username, u.Email, u.FullName, u.GivenName, u.Surname, u.UserIDAttr = "tenant"+tag+"-username", "tenant"+tag+"-mail@users.example", "Tenant"+tag+" Fullname", "Tenant"+tag+"given", "Tenant"+tag+"sur", "tenant"+tag+"-idattr"
 		u.Custom = []world.CustomAttr{{Name: "role", NameFormat: "urn:oasis:names:tc:SAML:2.0:attrname-format:basic", Values: []string{"tenant" + tag + "-role-value"}}}
 		t := world.TenantSpec{Users: []world.UserSpec{u}}
@@ -55,6 +55,13 @@ func tenantSpec(onlyA bool) world.Spec {
 			t.SPs = []world.SPSpec{sp}
 		}
 		spec.Tenants[host] = t
+		// a completed login of that user under this tenant, to be delivered to the tenant's consumer service
+		spec.Requests = append(spec.Requests, world.RequestSpec{ID: "tenant-req-" + tag, AppID: sp.AppID, RelayState: "rs-tenant-" + tag, ACS: sp.ACS[0].Location, Binding: world.BindPost,
+			AuthRequestID: "_tenant-authn-" + tag, UserID: u.UserID, Done: true})
+		if spec.Apps == nil {
+			spec.Apps = map[string]string{}
+		}
+		spec.Apps[sp.AppID] = tenantEntity
 	}
 	return spec
 }
@@ -67,11 +74,11 @@ func genTenantSchedCase(kind string) func(t *rapid.T) TenantSchedCase {
 			c.Tenant = append(c.Tenant, rapid.IntRange(0, 1).Draw(t, "tenant"))
 		}
 		c.Tenant[0], c.Tenant[1] = 0, 1
-		c.OnlyA = kind != "attrquery" && rapid.Bool().Draw(t, "only-a")
+		c.OnlyA = (kind == "logout" || kind == "sso") && rapid.Bool().Draw(t, "only-a")
 		c.Sequential = rapid.IntRange(0, 4).Draw(t, "sequential") == 0
 		if !c.Sequential && rapid.IntRange(0, 3).Draw(t, "slowstorage") != 0 {
 			c.Slow = rapid.IntRange(0, n-1).Draw(t, "slow")
-			c.SlowAt = "storage:" + rapid.SampledFrom([]string{"GetEntityByID", "GetEntityByID", "SetUserinfoWithLoginName", "SetUserinfoWithLoginName", "GetResponseSigningKey", "CreateAuthRequest"}).Draw(t, "slowat")
+			c.SlowAt = "storage:" + rapid.SampledFrom([]string{"GetEntityByID", "GetEntityByID", "SetUserinfoWithLoginName", "SetUserinfoWithLoginName", "GetResponseSigningKey", "CreateAuthRequest", "SetUserinfoWithUserID", "AuthRequestByID", "GetEntityIDByAppID"}).Draw(t, "slowat")
 		}
 		c.Schedule = rapid.SliceOfN(rapid.IntRange(0, 7), 0, 40).Draw(t, "schedule")
 		return c
@@ -79,14 +86,16 @@ func genTenantSchedCase(kind string) func(t *rapid.T) TenantSchedCase {
 }
 
 func tenantSchedRun(c TenantSchedCase) ([]*ev.Violation, []string) {
-	prop := map[string]string{"attrquery": "C12", "logout": "C13", "sso": "C02"}[c.Kind]
+	prop := map[string]string{"attrquery": "C12", "logout": "C13", "sso": "C02", "callback": "C03"}[c.Kind]
 	spec := tenantSpec(c.OnlyA)
 	w := mustBuild(spec)
 	wr := func(n *xt.Node) []byte { return xt.Write(n, plainStyle.W) }
 	reqs := make([]obs.HTTPReq, len(c.Tenant))
 	for i, tn := range c.Tenant {
 		var hr obs.HTTPReq
-		if c.Kind == "sso" {
+		if c.Kind == "callback" {
+			hr = callbackReq(spec.IdP, "tenant-req-"+string(rune('a'+tn)))
+		} else if c.Kind == "sso" {
 			a := spsim.NewAuthnReq(fmt.Sprintf("_ts-%d", i), tenantEntity)
 			hr, _, _ = spsim.Encode(spec.IdP.Route("sso"), wr(a.Tree(plainStyle)), spsim.Transport{Binding: []string{"post", "redirect"}[i%2], Plus: true, Encoding: A, RelayState: fmt.Sprintf("rs-task-%d", i)}, nil)
 		} else if c.Kind == "attrquery" {
@@ -138,6 +147,23 @@ func tenantSchedRun(c TenantSchedCase) ([]*ev.Violation, []string) {
 				add("another-tenants-records", "the reply carries records of the other tenant (%s)", short(strings.TrimSpace(text), 120))
 				break
 			}
+		}
+		if c.Kind == "callback" {
+			switch {
+			case resp == nil || !resp.Success() || len(resp.Assertions) != 1:
+				add("tenant-callback-not-answered", "the callback for a completed request of this tenant was not answered with one assertion: status %d %s", rep.Status, short(string(rep.Body), 120))
+			case resp.Assertions[0].NameID != "tenant"+own+"-username":
+				add("attributes", "the assertion names %q, the user who completed the request is %q under this tenant", resp.Assertions[0].NameID, "tenant"+own+"-username")
+			case d.Target != "https://tenant-"+own+".sp.example/acs" || resp.Destination != d.Target:
+				add("destination", "delivered to %q with Destination %q; the stored consumer URL is %q", d.Target, resp.Destination, "https://tenant-"+own+".sp.example/acs")
+			case resp.Issuer != wantIssuer:
+				add("response-issuer", "Issuer %q, the entity ID for the request host is %q", resp.Issuer, wantIssuer)
+			case resp.InResponseTo != "_tenant-authn-"+own:
+				add("inresponseto", "InResponseTo %q, the stored request's ID is %q", resp.InResponseTo, "_tenant-authn-"+own)
+			case d.RelayState != "rs-tenant-"+own:
+				add("relaystate", "RelayState %q, stored %q", d.RelayState, "rs-tenant-"+own)
+			}
+			continue
 		}
 		if c.Kind == "sso" {
 			registered := tn == 0 || !c.OnlyA
@@ -219,3 +245,7 @@ func TestC13Tenants(t *testing.T) { tenantSchedTest(t, "C13", c13Rule, "logout")
 // TestC02Tenants: AuthnRequests of one entity ID under two tenants with different consumer services (or registered under the
 // first only): what is persisted for a request is the pair registered under its own tenant.
 func TestC02Tenants(t *testing.T) { tenantSchedTest(t, "C02", c02Rule, "sso") }
+
+// TestC03Tenants: callbacks for completed requests of one user id under two tenants (the record differs per tenant): every
+// Success response is about its own tenant's user, request and consumer service.
+func TestC03Tenants(t *testing.T) { tenantSchedTest(t, "C03", c03Rule, "callback") }
